@@ -51,7 +51,7 @@ def run_spec(spec, check_domain=True, b=None):
         raise Discard("atomica raised %s at %s (decided by C18)" % (type(e).__name__, atomica_frame(e)))
     b["preflush"] = pre
     if check_domain:
-        oracles.check_overflow(res)
+        oracles.check_overflow(res, spec=spec)
         oracles.check_junction_domain(res, pre)
         preflush_domain(spec, pre)
     return b, res
